@@ -2,6 +2,7 @@ import SignalModel.Spec
 import SignalModel.SpecMem
 import SignalModel.Cost
 import SignalModel.PoolM
+import Std.Data.HashSet
 /-!
 # Transcript replay: the correspondence check's model side
 
@@ -67,13 +68,14 @@ structure DState where
   nDeadSkipped : Nat := 0
   msgs : Array String := #[]
   nFailMsgs : Nat := 0
+  failKeys : Std.HashSet String := {}
   nDivMsgs : Nat := 0
 
 /-- messages are capped separately for divergences and predicate failures, so that a flood of one
 kind cannot hide the other -/
 def DState.say (s : DState) (m : String) : DState :=
   if m.startsWith "FAIL" then
-    if s.nFailMsgs < 300 then { s with msgs := s.msgs.push m, nFailMsgs := s.nFailMsgs + 1 } else s
+    if s.nFailMsgs < 3000 then { s with msgs := s.msgs.push m, nFailMsgs := s.nFailMsgs + 1 } else s
   else
     if s.nDivMsgs < 300 then { s with msgs := s.msgs.push m, nDivMsgs := s.nDivMsgs + 1 } else s
 
@@ -81,9 +83,14 @@ def DState.diverge (s : DState) (what model impl : String) : DState :=
   ({ s with nDiv := s.nDiv + 1, dead := true }).say
     s!"DIVERGE line={s.lineNo} case={s.caseNo} what={what} model={model} impl={impl} label={s.caseLabel}"
 
+/-- a predicate failure; identical (property, clause, detail) triples are reported once, so that a
+frequently generated known finding cannot crowd out a different failure -/
 def DState.fail (s : DState) (prop clause detail : String) : DState :=
-  ({ s with nFail := s.nFail + 1 }).say
-    s!"FAIL prop={prop} clause={clause} line={s.lineNo} case={s.caseNo} {detail}"
+  let key := prop ++ "|" ++ clause ++ "|" ++ detail
+  if s.failKeys.contains key then { s with nFail := s.nFail + 1 }
+  else
+    ({ s with nFail := s.nFail + 1, failKeys := s.failKeys.insert key }).say
+      s!"FAIL prop={prop} clause={clause} line={s.lineNo} case={s.caseNo} {detail}"
 
 /-- stateless divergence (kernel lines): does not kill a case -/
 def DState.divergeK (s : DState) (what model impl : String) : DState :=
